@@ -123,3 +123,35 @@ def guard_exceptions(owner, name, monitor, allowed=(), classify=None):
     if not isinstance(owner, type):
         _rebind_aliases(func, wrapper)
     _INSTALLED[ident] = wrapper
+
+
+def outcome(owner, name, observer, key=None):
+    """Outcome monitor: observer(bound_arguments: dict, result, exc) is called after every call of owner.name, whether it
+    returned or raised (icontract postconditions do not run after a raise); the call's own behaviour is unchanged."""
+    ident = (id(owner), name, "outcome:" + (key or observer.__name__))
+    if ident in _INSTALLED:
+        return
+    func = owner.__dict__[name] if isinstance(owner, type) else getattr(owner, name)
+    sig = inspect.signature(func)
+
+    @functools.wraps(func)
+    def wrapper(*args, **kwargs):
+        try:
+            bound = sig.bind(*args, **kwargs)
+            bound.apply_defaults()
+            arguments = dict(bound.arguments)
+        except TypeError:
+            arguments = {"args": args, "kwargs": kwargs}
+        try:
+            out = func(*args, **kwargs)
+        except Exception as e:
+            observer(arguments, None, e)
+            raise
+        observer(arguments, out, None)
+        return out
+
+    setattr(owner, name, wrapper)
+    if not isinstance(owner, type):
+        _rebind_aliases(func, wrapper)
+    _INSTALLED[ident] = wrapper
+    REC.extra.setdefault("attached", []).append(f"{getattr(owner, '__name__', owner)}.{name}<-{observer.__name__}")
